@@ -913,7 +913,10 @@ fn check_unit_tick(
                     ctx.hit("probe.fc_riding_transient_limit");
                 }
             }
-            r.brake_prev = fc.pwr_brake.value;
+            // the reference's own record of the shaft power this step delivered: what the generator took in (the
+            // hand-off is a C01 clause of its own), and nothing at all when the engine was commanded off - not the
+            // engine's state field, which a step that returns early may leave as it was
+            r.brake_prev = if on { g.pwr_mech_in.value } else { 0.0 };
         }
         PowertrainType::BatteryElectricLoco(b) => {
             let rs = b.res.state;
